@@ -27,6 +27,7 @@ func init() {
 	register(&Scenario{Prop: "C02", Name: "status-cancel", Run: func(rc *RunCtx) { runFanout(rc, fanOpts{thresholds: true, cancel: true}) }})
 	register(&Scenario{Prop: "C03", Name: "terminate", Run: func(rc *RunCtx) { runFanout(rc, fanOpts{cancel: true, small: true}) }})
 	register(&Scenario{Prop: "C03", Name: "stock-sinks", Run: runStockSinksTerminate})
+	register(&Scenario{Prop: "C03", Name: "rendezvous", Run: runFanoutRendezvous}) // nodes that only wait for one another are nodes that return: Send must, too
 	register(&Scenario{Prop: "C03", Name: "terminate-stall", Run: func(rc *RunCtx) { runFanout(rc, fanOpts{cancel: true, small: true, stall: true}) }})
 }
 
@@ -1180,7 +1181,11 @@ func runFanoutRendezvous(rc *RunCtx) {
 		}
 	}
 	if !returned || reached != k {
-		rc.Failf("C01.traversal", "pipelines-wait-for-each-other", "%d pipelines whose formatters wait for one another (none of them a first node): Send returned=%v (err %v), %d of %d sinks were reached: the pipelines were not traversed independently of each other; %s", k, returned, serr, reached, k, strings.Join(sim.StuckInfo, "; "))
+		rule := "C01.traversal"
+		if rc.Prop == "C03" {
+			rule = "C03.stuck"
+		}
+		rc.Failf(rule, "pipelines-wait-for-each-other", "%d pipelines whose formatters wait for one another (none of them a first node): Send returned=%v (err %v), %d of %d sinks were reached: the pipelines were not traversed independently of each other; %s", k, returned, serr, reached, k, strings.Join(sim.StuckInfo, "; "))
 	}
 }
 
